@@ -242,6 +242,13 @@ func ruleForwardConsultsFilters(w *core.World, r *core.Report) {
 				}
 			}
 			if !bp {
+				// MULTI and EXEC name no database: the database rule has nothing to say about them, and the sender needs
+				// both brackets of a block whichever databases its body visits (R01.11, W40)
+				if _, bracket, _ := cmdNameKnown(p, isResultOf("pkg/redis/client.ParseArgs", 0), "multi", "exec"); bracket {
+					bp = true
+				}
+			}
+			if !bp {
 				missing["FilterDb (database bypass flag)"] = true
 			}
 		})
